@@ -123,6 +123,8 @@ def run_gen(ctx, case):
         try:
             R, t = gen.random_rotation(rng), rng.normal(size=3) * 5
             emap(emmon.with_positions(refm, pos @ R.T + t))
+            if it % 2:
+                emmon.disturb(ctx, emap, tgtm, refm)
             emap(refm)
             other = refm.copy()
             other.atoms_positions = pos @ R.T
